@@ -48,7 +48,7 @@ func assignDefaultProcessValues(p *types.Project) {
 		if proc.Namespace == "" {
 			proc.Namespace = types.DefaultNamespace
 		}
-		if proc.Replicas == 0 {
+		if proc.Replicas < 1 {
 			proc.Replicas = 1
 		}
 		if proc.LaunchTimeout < 1 {
